@@ -7,6 +7,7 @@ import (
 	"fmt"
 	"io"
 	"log/slog"
+	"math"
 	"net/http"
 	"net/http/httptest"
 	"path"
@@ -543,6 +544,14 @@ func (c *cmafIngester) sendMediaSegments(ctx context.Context, nextSegNr, nowMS i
 			} else {
 				switch rd.contentType {
 				case "video", "text", "image":
+					if _, ok := c.asset.Reps[rd.repID]; !ok {
+						// Generated time subtitles are not part of the asset. As in the MPD,
+						// they follow the reference timeline in their own timescale.
+						se = segEntries{mediaTimescale: SUBS_TIME_TIMESCALE, entries: []*m.S{{
+							T: m.Ptr(uint64(math.Round(float64(refSegEntries.lastTime()) * SUBS_TIME_TIMESCALE / float64(refSegEntries.mediaTimescale)))),
+						}}}
+						break
+					}
 					se = c.asset.generateTimelineEntries(rd.repID, wTimes, atoMS)
 				case "audio":
 					se = c.asset.generateTimelineEntriesFromRef(refSegEntries, rd.repID)
